@@ -27,10 +27,8 @@ import (
 	"encoding/json"
 	"fmt"
 	"reflect"
-	"runtime/debug"
 	"strconv"
 	"strings"
-	"sync"
 )
 
 type fastCodec interface {
@@ -75,16 +73,13 @@ func exact(bs []byte) []byte {
 	return c
 }
 
-var fastMemLimit sync.Once
-
 // safeFastRead runs x.FastRead(bs) and recovers panics.
 //
 // FastRead (like the standard Read) allocates make(T, size) with the size it finds in the input before it
-// looks at the bytes that follow. Corrupted input therefore produces short-lived multi-gigabyte slices; a
-// soft memory limit (set on first use, only in processes that run these verbs) makes the collector return
-// them promptly instead of letting them pile up against the ulimit of the harness.
+// looks at the bytes that follow: corrupted input produces multi-gigabyte slices. The harness (fastdrv) runs
+// this driver with GOGC=off in short-lived processes, so that those slices are fresh, never touched address
+// space instead of recycled memory that has to be zeroed.
 func safeFastRead(x fastCodec, bs []byte) (cls string, off int, msg string) {
-	fastMemLimit.Do(func() { debug.SetMemoryLimit(2 << 30) })
 	defer func() {
 		if r := recover(); r != nil {
 			cls, off, msg = "panic", -1, fmt.Sprint(r)
